@@ -1,5 +1,6 @@
 import DrummerVerif.Lemmas.C11
 import DrummerVerif.Lemmas.C11S
+import DrummerVerif.Lemmas.KStep
 import DrummerVerif.Bridge.Bridge
 /-!
 # C11 — only stray replicas are killed, and kill requests stop once they are gone
@@ -55,6 +56,70 @@ theorem entry_flagged_iff_stray :
                 (∀ (r : Replica), r ∈ ec.replicas → r.replicaId ≠ ci.replicaId) ∧
                   ((ci.pending || ci.incomplete) = true → List.length ec.replicas > 0 ∧ ec.cci > 0)) :=
   @_root_.Drummer.doUpdate1_flag_iff
+
+theorem member_never_killed_in_every_reachable_state :
+    ∀ (size : Nat → Nat) (defIds : Nat → List Nat) (l l' : Loop),
+      KInv size defIds l →
+        KSteps size defIds l l' →
+          (∀ (k : KillEntry),
+              k ∈ l'.db.image.toKill →
+                ∀ (g : Group),
+                  Loop.group? l' k.shardId = some g → ¬k.replicaId ∈ List.map (fun x => x.fst) (Group.cur g).members) ∧
+            (∀ (x : Host),
+                x ∈ l'.hosts →
+                  ∀ (r : Request),
+                    r ∈ x.queue →
+                      r.type = ReqType.kill →
+                        ∀ (id : Nat),
+                          List.head? r.members = some id →
+                            ∀ (g : Group),
+                              Loop.group? l' r.shardId = some g → ¬id ∈ List.map (fun x => x.fst) (Group.cur g).members) ∧
+              ∀ (p : Addr × List Request),
+                p ∈ l'.db.requests ++ l'.db.outgoing →
+                  ∀ (r : Request),
+                    r ∈ p.snd →
+                      r.type = ReqType.kill →
+                        ∀ (id : Nat),
+                          List.head? r.members = some id →
+                            ∀ (g : Group),
+                              Loop.group? l' r.shardId = some g → ¬id ∈ List.map (fun x => x.fst) (Group.cur g).members :=
+  @_root_.Drummer.member_never_killed
+
+theorem loop_invariant_step :
+    ∀ (size : Nat → Nat) (defIds : Nat → List Nat) (l l' : Loop),
+      KInv size defIds l → KStep size defIds l l' → KInv size defIds l' :=
+  @_root_.Drummer.kstep_inv
+
+theorem loop_invariant_cold_start :
+    ∀ (size : Nat → Nat) (defIds : Nat → List Nat) (l : Loop),
+      l.groups = [] →
+        (∀ (x : Host), x ∈ l.hosts → x.queue = [] ∧ x.running = [] ∧ x.data = []) →
+          l.db.image.shards = [] → l.db.image.toKill = [] → l.db.requests = [] → l.db.outgoing = [] → KInv size defIds l :=
+  @_root_.Drummer.kinv_cold
+
+theorem loop_event_is_step :
+    ∀ (size : Nat → Nat) (defIds : Nat → List Nat) (l l' : Loop),
+      KStep size defIds l l' → Step size l l' ∨ l' = l :=
+  @_root_.Drummer.kstep_step
+
+theorem flagged_entry_names_removed_replica :
+    ∀ (defIds : Nat → List Nat) (l : Loop),
+      Loop.HistOK l →
+        Loop.DefsKnown defIds l →
+          ∀ (t : Nat) (mi mi' : MultiShard) (ci : ShardInfo),
+            ImgOK l mi' →
+              doUpdate1 t mi ci = Outcome.ok (mi', true) →
+                Loop.Anch defIds l ci.shardId ci.replicaId → Loop.Removed l ci.shardId ci.replicaId :=
+  @_root_.Drummer.flagged_removed
+
+/-- non-vacuity: a cold start (four empty NodeHosts, an empty replicated state) satisfies the invariant, and the
+    closed loop can move on from it (a crash and a restart are events) -/
+example : KInv (fun _ => 3) (fun s => [100 * s + 1, 100 * s + 2, 100 * s + 3])
+    { hosts := [{ addr := "h0" }, { addr := "h1" }, { addr := "h2" }, { addr := "h3" }] } := by
+  apply @_root_.Drummer.kinv_cold <;> first | rfl | (intro x hx; simp at hx; rcases hx with rfl | rfl | rfl | rfl <;> exact ⟨rfl, rfl, rfl⟩)
+
+example (l : Loop) : KSteps (fun _ => 3) (fun _ => []) l ((l.crash "h0").restart "h0") :=
+  .tail _ _ _ (.tail _ _ _ (.refl l) (.crash l "h0")) (.restart _ "h0")
 
 end C11
 end Drummer
